@@ -1,3 +1,8 @@
 import NR.Basic
 import NR.TimeDep
+import NR.Emit
+import NR.Spec
 import NR.Driver
+import NR.Props.C06
+import NR.Props.C17
+import NR.FactThms.SolverFacts
